@@ -502,6 +502,22 @@ func C16(c *core.Ctx) {
 	c.Decide(orderBad == "", "R16.3", "lock-order-rib-before-fib", "-", "FIB code never calls into the RIB (lock order RIB → FIB only)", "FIB code calls into the RIB at "+orderBad+" (RIB code calls the FIB while holding the RIB lock: opposite orders can deadlock)")
 	_ = token.ADD
 
+	// ---- R16.5 no two locks of the forwarder (tables, face table, link services, management
+	// readvertisers) are taken in opposite orders on two paths — calls through interfaces
+	// and through callbacks stored in struct fields included
+	{
+		edges := core.LockOrder(p, []string{"fw/table", "fw/face", "fw/mgmt", "fw/fw", "fw/dispatch"})
+		cycles := core.LockCycles(edges)
+		c.Extra["lock_order_edges"] = len(edges)
+		if len(cycles) == 0 {
+			c.Ok("R16.5", "lock-order-acyclic", "-", fmt.Sprintf("%d lock-order edges across fw/…, no cycle", len(edges)))
+		}
+		for _, cy := range cycles {
+			a, b := cy[0], cy[1]
+			c.Viol("R16.5", "lock-order-acyclic:"+a.From+"<>"+a.To, c.Pos(a.At), fmt.Sprintf("%s is held at %s while %s can be acquired (via %s), and %s is held at %s while a path towards %s starts (via %s): two goroutines taking them in these orders deadlock", a.From, c.Pos(a.At), a.To, a.Via, b.From, c.Pos(b.At), a.From, b.Via))
+		}
+	}
+
 	// ---- R16.4 a RIB change reaches the FIB as ONE update of the affected entry: a lookup
 	// that overlaps it sees the old or the new next-hop set, never the empty or half-filled
 	// one. The refresh of an entry must not be a ClearNextHopsEnc followed by separate
